@@ -24,9 +24,14 @@ FILES = [
 ]
 REQUIRED_THEOREMS = ["C17_records_getattr", "C17_records_statistics_getattr", "C17_schedule_metric", "C17_schedule_observable", "C17_schedule_logger", "C17_schedule_saver", "C17_saver",
                      "C17_saver_file", "C17_records_metric_run", "C17_records_observable_run",
-                     "C17_records_get_value", "C17_records_get_value_out_of_range", "C17_independent"]
+                     "C17_records_get_value", "C17_records_get_value_out_of_range", "C17_independent",
+                     "C17_fit_stream", "C17_fit_schedule", "C17_fit_callbacks", "C17_fit_stopped_beforehand",
+                     "C17_saver_file_last", "C17_saver_file_overwrite", "C17_saver_file_none", "C17_logger_default_msg"]
 EXTRA_TRUSTED = [
-    "C17: the event stream fed to the model is the one recorded by a user callback in the same real run (how fit produces it is C12)",
+    "C17: the event stream fed to the model is the one recorded by a user callback in the same real run; that a real fit(starting_epoch, epochs) "
+    "produces train-start, then the epoch-ends of starting_epoch..last (last = epochs, or the epoch of the first stop request) is "
+    "C17_fit_stream / C17_fit_schedule = the C17 theorems composed with the C12 model of fit (tied to the code by the C12 check and by the "
+    "fit-stream oracle here)",
     "C17: file_name has the form pre+'{}'+post; obs_name+'_'+stat_name is injective on the pairs that occur; "
     "torch.save/torch.load round-trip (C11); verbose printing and pre-existing log-file content are not modelled",
 ]
@@ -499,6 +504,15 @@ def _run_case(ctx, case, tmp):
         except Exception as e:  # noqa: BLE001
             err = type(e).__name__
         printed.append(buf.getvalue())
+        if err is None and not stop_before:
+            # the key events of one real fit: one train start, first, then the epoch-ends of start..last (C17_fit_stream / RunEnds)
+            sp = seg.get("stop")
+            last = seg["epochs"] if not sp else (min(seg["start"], seg["epochs"]) if sp["k"] == "ts" else sp["e"])
+            want = ["ts"] + [("ee", e) for e in range(seg["start"], last + 1)]
+            got = [("ee", ev["e"]) if ev["k"] == "ee" else "ts" for ev in rec.events[n0:] if ev["k"] in ("ts", "ee")]
+            ctx.oracle("one fit = train start, then the epoch-ends of starting_epoch..last (last = epochs, or the epoch of the stop request)",
+                       got == want, {**case, "at_segment": len(seg_results)}, detail={"got": got, "expected": want},
+                       sig=f"{sig0}/fit-stream-oracle", theorem="C17_fit_stream, C17_fit_schedule")
         if stop_before:
             ctx.oracle("a run started with the stop request still set dispatches no event (no initial save, no evaluation)",
                        err is None and rec.events[n0:] == [], {**case, "at_segment": len(seg_results)},
@@ -617,7 +631,8 @@ def _run_case(ctx, case, tmp):
                         mo = ctx.driver.call("c17.default_msg", kwargs_repr=str({"tag": "x"}), epochs=[e for (_, e) in msnap["out"]])
                     else:
                         mo = [[w, e, "x", rec.psig(w)] for (w, e) in msnap["out"]]
-                    ctx.point("logger.out", "property", isnap["out"], mo, cc, exact=True, sig=f"{sig0}/logger/schedule", theorem="C17_schedule_logger")
+                    ctx.point("logger.out", "property", isnap["out"], mo, cc, exact=True, sig=f"{sig0}/logger/schedule",
+                              theorem="C17_logger_default_msg" if b.spec.get("default_msg") else "C17_schedule_logger")
             for ci, b in enumerate(built):
                 isnap = after_clear[si][ci] if si < len(after_clear) else None
                 if isnap is None:
@@ -728,7 +743,7 @@ def check_files(ctx, case, cc, b, st, rec, writes, sig0):
             detail = {"params_equal_snapshot_at_world": ok_params, "metadata": repr(extra)[:300], "expected": repr(md)[:300],
                       "world": wr["w"], "arg": wr["arg"]}
         ctx.point("saver.file_content", "property", bool(ok), True, {**cc, "file": name, "detail": detail}, exact=True,
-                  sig=f"{sig0}/saver/content", theorem="C17_saver, C17_saver_file, C17_saver_initial_file")
+                  sig=f"{sig0}/saver/content", theorem="C17_saver, C17_saver_file_last, C17_saver_file_overwrite (last write wins over several runs)")
 
 
 def oracle_checks(ctx, case, built, rec, seg_events, seg_results, impl_snaps, st, sig0):
@@ -861,7 +876,7 @@ def oracle_checks(ctx, case, built, rec, seg_events, seg_results, impl_snaps, st
                         ok, bad = False, name
                         break
             ctx.oracle("saver: files named by epoch (+initial), each loads back to the parameters at that event with the metadata", ok, cc,
-                       detail={"files": files, "expected": sorted(exp), "bad_file": bad}, sig=f"{sig0}/saver/oracle", theorem="C17_saver, C17_saver_file")
+                       detail={"files": files, "expected": sorted(exp), "bad_file": bad}, sig=f"{sig0}/saver/oracle", theorem="C17_saver, C17_saver_file_overwrite, C17_saver_file_none")
 
 
 # ---------------------------------------------------------------- generation
@@ -954,8 +969,47 @@ def run(ctx):
         got = ctx.driver.call("c17.strip", names=words)
         ctx.point("stripPlural", "aux", [w[:-1] if w.endswith("s") else w for w in words], got, {"words": words}, exact=True, sig="C17/stripPlural")
     own_sanity(ctx)
+    format_spec_cases(ctx)
     for case in gen_cases(ctx, ctx.tier == "thorough"):
         run_case(ctx, case)
+
+
+def format_spec_cases(ctx):
+    """`file_name` with a format SPEC (outside the model, whose file names are `pre{}post`): `"m{:03d}.pt"` names the epoch files
+    `m002.pt`, …, each loads back to the parameters at the end of that epoch; the "initial" save (`"{:03d}".format("initial")`) is a
+    ValueError at train start — the recorded behaviour of `str.format`, so such a pattern needs `save_initial=False`."""
+    from qucumber.callbacks import ModelSaver
+    for save_initial in (False, True, None):
+        tmp = tempfile.mkdtemp(prefix="qv_c17f_")
+        case = {"format_spec": "m{:03d}.pt", "save_initial": save_initial}
+        try:
+            st, data, bases = make_state("pos", 3)
+            rec = Recorder()
+            kw = {} if save_initial is None else {"save_initial": save_initial}
+            saver = ModelSaver(2, os.path.join(tmp, "f"), "m{:03d}.pt", **kw)
+            err = None
+            try:
+                st.fit(data, epochs=5, pos_batch_size=4, k=1, lr=0.05, callbacks=[rec, saver])
+            except Exception as e:  # noqa: BLE001
+                err = type(e).__name__
+            files = sorted(os.listdir(os.path.join(tmp, "f")))
+            ctx.case(case, nontrivial=True)
+            ctx.count("saver.file_name_with_format_spec")
+            if save_initial is False:
+                ok = err is None and files == ["m002.pt", "m004.pt"]
+                if ok:
+                    for ev in rec.events:
+                        if ev["k"] == "ee" and ev["e"] % 2 == 0:
+                            loaded = torch.load(os.path.join(tmp, "f", "m%03d.pt" % ev["e"]), weights_only=False)
+                            ok = ok and files_equal_snapshot(loaded, rec.worlds[ev["w"]], st.networks)
+                ctx.oracle("saver: a format spec in file_name formats the epoch; files load back to the parameters at that epoch's end", ok, case,
+                           detail={"error": err, "files": files}, sig="C17/saver/format-spec", theorem="C17_saver (file naming is str.format: assumed)")
+            else:
+                ctx.oracle("saver: an integer format spec cannot format 'initial' (ValueError at train start, nothing saved)",
+                           err == "ValueError" and files == [] and [ev["k"] for ev in rec.events] == ["ts"], case,
+                           detail={"error": err, "files": files}, sig="C17/saver/format-spec-initial")
+        finally:
+            shutil.rmtree(tmp, ignore_errors=True)
 
 
 def own_sanity(ctx):
@@ -977,5 +1031,8 @@ def search(ctx):
 
 
 def replay(ctx, case):
+    if "format_spec" in case:
+        format_spec_cases(ctx)
+        return
     case = {k: v for k, v in case.items() if k not in ("at_segment", "callback", "file", "detail")}
     run_case(ctx, case)
